@@ -16,10 +16,10 @@ type cacheAnchors struct {
 	ok      bool
 	missing []string
 
-	entry                                                               *types.Named // cache.httpCache
+	entry                                                                    *types.Named // cache.httpCache
 	fStatus, fChanList, fResponse, fCreatedAt, fExpiredAt, fMu, fKey, fStore *types.Var
-	statusT                                                             *types.Named
-	stUnknown, stFetching, stHFP, stHit, stPassed                       int64
+	statusT                                                                  *types.Named
+	stUnknown, stFetching, stHFP, stHit, stPassed                            int64
 
 	Get, get, initFromStore, saveToStore, Age *ssa.Function
 	completions                               []*ssa.Function // functions storing a terminal status (Hit / HitForPass) into the live entry
